@@ -156,7 +156,11 @@ impl Vm {
                 let mut v = vec![];
                 let mut rest = template;
                 while rest.is_pair() {
-                    v.push(self.transform_template(rest.car().unwrap(), depth)?);
+                    let car = rest.car().unwrap();
+                    if !v.is_empty() && (car.is_unquote() || car.is_quasiquote()) {
+                        break;
+                    }
+                    v.push(self.transform_template(car, depth)?);
                     rest = rest.cdr().unwrap();
                 }
                 if rest.is_nil() {
@@ -762,13 +766,22 @@ impl Vm {
         let mut rest = expr;
         while rest.is_pair() {
             let car = rest.car().unwrap();
+            // `(a . ,b) reads as (a unquote b): an unquote in tail position is the template of the tail
+            if count > 0 && (car.is_unquote() || car.is_quasiquote()) {
+                break;
+            }
             self.compile_quasiquote(lambda, car, depth)?;
             lambda.emit(OpCode::PushAcc);
             rest = rest.cdr().unwrap();
             count += 1;
         }
-        lambda.emit(OpCode::PushImmediate);
-        lambda.emit(self.heap.maybe_put_cell(rest));
+        if rest.is_pair() || rest.is_vector() {
+            self.compile_quasiquote(lambda, rest, depth)?;
+            lambda.emit(OpCode::PushAcc);
+        } else {
+            lambda.emit(OpCode::PushImmediate);
+            lambda.emit(self.heap.maybe_put_cell(rest));
+        }
 
         for i in 0..count {
             lambda.emit(OpCode::Cons);
